@@ -7,6 +7,31 @@ HERE = os.path.dirname(os.path.dirname(os.path.abspath(__file__)))
 CMD = "PYTHONPATH=/repo/src PYTHONHASHSEED=0 /venv/bin/python harness/check.py %s --tier %s"
 
 CHECKS = {
+    "C12": dict(
+        engine="E5-services",
+        technique="Coq proof (convergence invariant over all histories of poll answers / register / unregister / task executions in any order of the two running tasks; reported-hash invariant; no-change and failed-poll frame laws; captured-config discipline refuted by witness) + in-Coq correspondence with the real service under a controlled task handler + physical two-worker runs",
+        text="5 Coq theorems over ConfigSvc.v: in every reachable state with no update task pending the handler's installed list "
+             "is the latest polled configuration followed by the live registrations; the hash reported is that of the last "
+             "update answer; a no-change answer changes only the timestamp; a failed or malformed poll changes nothing; tasks "
+             "installing the configuration captured at submit are refuted by a checked witness (update, update, second task "
+             "first). Tied to the code by generated histories through the real LongPoll.poll (scripted stub), "
+             "TracepointConfigService, ConfigService and TriggerHandler with a task handler that lets the harness pick which "
+             "of the two running tasks installs first; installed list after every step compared inside Coq.",
+        note="Trusted: Coq kernel+VM; harness; an update task's installation is atomic (the service's lock); pool of two workers; "
+             "timer loop continuing after a failing poll is exercised on the real RepeatedTimer, not proved.",
+        design="5-C12"),
+    "C13": dict(
+        engine="E5-services",
+        technique="Coq proof (handle freshness/uniqueness invariant over all histories; register adds alongside; unregister removes exactly the registration of that handle; twice is the identity; location-as-handle refuted) + in-Coq correspondence with the real service and API",
+        text="7 Coq theorems over ConfigSvc.v: handles of live registrations are pairwise distinct in every reachable state; a "
+             "registration is appended under a fresh handle and leaves the service's configuration alone; unregistering a "
+             "handle removes the registration that returned it and no other, whatever shares its location; a second "
+             "unregister is the identity; service updates keep the registrations; at quiescence installed = service's + "
+             "registered; the location-as-handle discipline is refuted by a checked witness. Tied to the code by histories "
+             "weighted to register/unregister on shared lines (repeated and never-returned handles) and by the public "
+             "register_tracepoint / unregister objects.",
+        note="Trusted: Coq kernel+VM; harness; uuid4 handles are distinct (modelled as a counter).",
+        design="5-C13"),
     "C11": dict(
         engine="E2-handler",
         technique="Coq proof (decision table of build_trigger for every argument map: iff-characterisation of each action kind, carried settings, placement, one action per kind; an uninterpretable tracepoint changes nothing else; merged response keeps all actions up to permutation) + EXHAUSTIVE in-Coq correspondence over the interacting keys",
@@ -198,6 +223,8 @@ def main():
                  serves_properties=["C02", "C05", "C06", "C07"], kind_free_text="Gallina work-list collector over abstract heaps; step invariants; in-Coq correspondence on generated object graphs"),
             dict(name="E2-handler", path="coq/theories/Limiter.v coq/theories/LimiterProofs.v coq/theories/Cond.v harness/lib/e2.py harness/props/c04.py harness/props/c10.py coq/theories/Match.v coq/theories/MatchProofs.v coq/theories/Callbacks.v coq/theories/CallbacksProofs.v harness/props/c03.py harness/props/c15.py coq/theories/Template.v coq/theories/TemplateProofs.v coq/theories/Metric.v coq/theories/MetricProofs.v harness/props/c16.py harness/props/c17.py coq/theories/TriggerTable.v coq/theories/TriggerTableProofs.v harness/props/c11.py",
                  serves_properties=["C03", "C04", "C10", "C11", "C15", "C16", "C17"], kind_free_text="Gallina models of the rate limiter (sequential and interleaved), condition gate and scope; real TriggerHandler with recording plugins, virtual clock, synthetic frames, forced schedules"),
+            dict(name="E5-services", path="coq/theories/ConfigSvc.v coq/theories/ConfigSvcProofs.v harness/lib/e5.py harness/props/c12.py harness/props/c13.py",
+                 serves_properties=["C12", "C13"], kind_free_text="Gallina state machines of the configuration service / task handler / lifecycle; real services under controlled executors and scripted stubs"),
             dict(name="E4-stores", path="coq/theories/Attrs.v coq/theories/AttrsProofs.v coq/theories/Config.v harness/props/c18.py harness/props/c19.py",
                  serves_properties=["C18", "C19"], kind_free_text="Gallina models of the attribute store, resources, configuration resolution; proofs; in-Coq correspondence"),
         ],
